@@ -224,6 +224,34 @@ def deep_chains(ctx):
 gen_tod_calendar = sc.gen_tod_calendar
 
 
+def gen_last_day_case(rng):
+    fwd = rng.random() < 0.7
+    every = [0, 1, 2, 3, 4, 5, 6]
+    full = rng.randint(1, 3)                      # days on which the second resource is fully booked
+    half = rng.choice([8, 16, 32, 48])            # the work of the task on the other resource (an eighth .. three quarters of a day)
+    edge_tod = rng.choice([0, 0, 0, 0, 6 * sc.H, 12 * sc.H])
+    if fwd:
+        edge = sc.day_us(full + rng.choice([0, 0, 0, 1]), edge_tod)
+        cal_b = rng.choice([['fixed', ['i', 8], None, edge], sc.wk(every, ['i', 8], None, edge)])
+        tasks = [sc.T(1, resource='a', est=half), sc.T(2, resource='b', est=64 * full), sc.T(3, resource='b', est=rng.choice([8, 32, 64]))]
+        links = [(sc.t_(0), sc.t_(2))]
+        pb = sc.day_us(0)
+        # the first task ends in the middle of the last fully booked day of `b`
+        tasks[0]['est'] = 64 * (full - 1) + half
+    else:
+        edge = sc.day_us(-full - rng.choice([0, 0, 0, 1]), edge_tod)
+        cal_b = rng.choice([['fixed', ['i', 8], edge, None], sc.wk(every, ['i', 8], edge, None)])
+        tasks = [sc.T(1, resource='b', est=rng.choice([8, 32, 64])), sc.T(2, resource='b', est=64 * full), sc.T(3, resource='a', est=64 * (full - 1) + half)]
+        links = [(sc.t_(0), sc.t_(2))]
+        pb = sc.day_us(0)
+    c = sc.C('fwd' if fwd else 'bwd', tasks, links=links, pb=pb, now=sc.day_us(-9),
+             resources=[{'name': 'a', 'cal': sc.wk(every, ['i', 8])}, {'name': 'b', 'cal': cal_b}])
+    c['outcome_only'] = True
+    c['edit_calendars'] = []
+    c['last_day'] = True
+    return c
+
+
 def robustness_stream(ctx):
     """calc on inputs outside the model's domain: only `returned or RuntimeError, in bounded time` is judged"""
     n = 60 if ctx.tier == 'quick' else 1500
@@ -273,6 +301,11 @@ def robustness_stream(ctx):
             c['mixed_ids'] = True
     # aimed: work that fits into one overtime day (closed in the calendar, opened by the resource for this task)
     cases += [sc.gen_overtime_case(ctx.rng, d) for d in ('bwd', 'fwd', 'bwd', 'fwd')]
+    # aimed: the last day of a calendar (its `end` is a midnight: the day counts when asked for at 00:00 and is over at
+    # any later time) reached by a search that stands at a time of day - a leaf that becomes ready in the middle of a
+    # fully booked day; mirrored for the backward scheduler with the first day of a calendar
+    rng3 = _random.Random('C14/last-day/%s' % ctx.seed)
+    cases += [gen_last_day_case(rng3) for _ in range(6 if ctx.tier == 'quick' else 60)]
     outs = []
     for i in range(0, len(cases), 20):
         outs += ctx.impl_run('sched_impl', cases[i:i + 20])
